@@ -158,7 +158,7 @@ Proof.
   - cases_if'; cbn [fst snd]; auto; discriminate.
   - cases_if'; cbn [fst snd]; auto.
   - destruct (writer_range w sg be) as [[lo hi]|]; [|auto]. cases_if'; cbn [fst snd]; auto. apply write_at_err.
-  - cases_if'; cbn [fst snd]; auto. apply write_at_err.
+  - cases_if'; cbn [fst snd]; auto; apply write_at_err.
   - cases_if'; cbn [fst snd]; auto; discriminate.
   - cases_if'; cbn [fst snd]; auto; discriminate.
 Qed.
@@ -182,16 +182,22 @@ Lemma width_straddle_rejected_lemma s h off d w :
   /\ (forall be bits, b_step s (BWriteF w be h off bits) = (s, BErr)).
 Proof.
   intros Hh Ho Hg Hlt. split; [|split].
-  - intros k be. cbn [b_step]. destruct (negb (reader_known w k be) || (k =? 2) && negb (w =? 8)); [reflexivity|].
+  - intros k be. cbn [b_step]. destruct (negb (reader_known w k be)) eqn:Ek; [reflexivity|].
     replace (h <? 0)%Z with false by lia. replace (off <? 0)%Z with false by lia.
     rewrite Hg, in_bounds_false by exact Hlt. reflexivity.
   - intros sg be v. cbn [b_step]. destruct (writer_range w sg be) as [[lo hi]|]; [|reflexivity].
     replace (h <? 0)%Z with false by lia. replace (off <? 0)%Z with false by lia.
     destruct ((v <? lo) || (hi <? v))%Z; [reflexivity|].
     apply write_at_straddle with (d := d); auto. rewrite enc_length. lia.
-  - intros be bits. cbn [b_step]. destruct (negb (fwriter_known w be && (w =? 8))) eqn:E; [reflexivity|].
-    assert (w = 8). { destruct (w =? 8) eqn:E8; [lia|]. rewrite andb_false_r in E. discriminate. }
-    subst w. apply write_at_straddle with (d := d); auto. rewrite enc_length. lia.
+  - intros be bits. cbn [b_step]. destruct (negb (fwriter_known w be)) eqn:E; [reflexivity|].
+    assert (Hw : w = 4 \/ w = 8).
+    { apply negb_false_iff in E. unfold fwriter_known in E. apply existsb_exists in E as [[w1 be1] [Hin Hp]].
+      apply andb_true_iff in Hp as [Hp _]. apply N.eqb_eq in Hp. subst w1.
+      assert (Hall : forallb (fun r => (fst r =? 4) || (fst r =? 8)) bytes_float_writers = true) by (vm_compute; reflexivity).
+      pose proof (proj1 (forallb_forall _ _) Hall _ Hin) as Hr. cbn [fst] in Hr. lia. }
+    destruct (w =? 8) eqn:E8.
+    + apply write_at_straddle with (d := d); auto. rewrite enc_length. lia.
+    + apply write_at_straddle with (d := d); auto. rewrite enc_length. lia.
 Qed.
 
 Lemma span_straddle_rejected_lemma s h off len d v :
@@ -300,8 +306,8 @@ Proof.
   destruct (read_back _ _ _ _ _ _ H Hlen) as [_ [_ [d' [Hg [Hb Hs]]]]].
   assert (Hk : reader_known w (if sg then 1 else 0) be = true).
   { unfold row_ok in Hrow. apply andb_true_iff in Hrow as [Hrow _]. apply andb_true_iff in Hrow as [_ Hrow]. exact Hrow. }
-  rewrite Hk. assert (Hk2 : ((if sg then 1 else 0) =? 2) = false) by (destruct sg; reflexivity). rewrite Hk2.
-  cbn [negb orb andb]. rewrite Hg, Hb, Hs, dec_enc, N2Nat.id.
+  rewrite Hk. assert (Hk2 : ((if sg then 1 else 0) =? 2) = false) by (destruct sg; reflexivity).
+  cbn [negb]. rewrite Hg, Hb, Hs, Hk2, dec_enc, N2Nat.id.
   rewrite N.mod_small by (rewrite <- pow256_256; apply to_unsigned_lt).
   assert (Hsg : ((if sg then 1 else 0) =? 1) = sg) by (destruct sg; reflexivity). rewrite Hsg.
   rewrite (repr_roundtrip w sg be lo hi v Hrow) by lia. reflexivity.
@@ -320,12 +326,12 @@ Lemma f64_roundtrip_lemma s be h off bits s' :
   b_step s' (BRead 8 2 be h off) = (s', BOkWord (v_float bits))
   /\ (is_nan_bits bits = false -> v_float bits = bits).
 Proof.
-  intros Hb. cbn [b_step]. destruct (negb (fwriter_known 8 be && (8 =? 8))) eqn:E; [discriminate|]. intro H.
+  intros Hb. cbn [b_step]. destruct (negb (fwriter_known 8 be)) eqn:E; [discriminate|]. change (8 =? 8) with true. cbv iota. intro H.
   assert (Hlen : N.of_nat (length (enc 8 be bits)) = 8) by (rewrite enc_length; reflexivity).
   destruct (read_back _ _ _ _ _ _ H Hlen) as [E1 [E2 [d' [Hg [Hbd Hs]]]]].
   split.
   - assert (Hk : reader_known 8 2 be = true) by (destruct be; vm_compute; reflexivity).
-    rewrite Hk. cbn [negb orb andb N.eqb]. change (8 =? 8) with true. change (2 =? 2) with true. cbn [negb andb orb].
+    rewrite Hk. cbn [negb]. change (8 =? 8) with true. change (2 =? 2) with true. cbv iota.
     rewrite E1, E2, Hg, Hbd, Hs, dec_enc. change (256 ^ N.of_nat 8) with W64. rewrite N.mod_small by exact Hb. reflexivity.
   - intro Hn. unfold v_float. rewrite Hn. reflexivity.
 Qed.
@@ -373,7 +379,7 @@ Proof.
   - destruct (writer_range w sg be) as [[lo hi]|]; [|reflexivity].
     destruct (h <? 0)%Z; [reflexivity|]. destruct (off <? 0)%Z; [reflexivity|].
     destruct ((v <? lo) || (hi <? v))%Z; [reflexivity|]. apply write_at_other. congruence.
-  - destruct (negb (fwriter_known w be && (w =? 8))); [reflexivity|]. apply write_at_other. congruence.
+  - destruct (negb (fwriter_known w be)); [reflexivity|]. destruct (w =? 8); apply write_at_other; congruence.
   - destruct (sh <? 0)%Z; [reflexivity|]. destruct (so <? 0)%Z; [reflexivity|].
     destruct (dh <? 0)%Z eqn:Ez; [reflexivity|]. destruct (doff <? 0)%Z; [reflexivity|].
     destruct (len <? 0)%Z; [reflexivity|]. destruct (len =? 0)%Z; [reflexivity|].
@@ -421,7 +427,7 @@ Proof.
   - destruct (h <? 0)%Z eqn:E; [reflexivity|]. rewrite (Hg eq_refl). cases_if'; reflexivity.
   - destruct (h <? 0)%Z eqn:E; [cases_if'; reflexivity|]. rewrite (Hg eq_refl). cases_if'; reflexivity.
   - destruct (writer_range w sg be) as [[lo hi]|]; [|reflexivity]. cases_if'; try reflexivity. apply Hw.
-  - cases_if'; try reflexivity. apply Hw.
+  - cases_if'; try reflexivity; apply Hw.
   - destruct (h <? 0)%Z eqn:E; [reflexivity|]. rewrite (Hg eq_refl). replace (len =? 0)%Z with false by lia. cases_if'; reflexivity.
   - destruct (h <? 0)%Z eqn:E; [reflexivity|]. rewrite (Hg eq_refl). replace (len =? 0)%Z with false by lia. cases_if'; reflexivity.
   - replace (len =? 0)%Z with false by lia. destruct (h <? 0)%Z eqn:E; [cases_if'; reflexivity|]. rewrite (Hg eq_refl). cases_if'; reflexivity.
@@ -489,4 +495,18 @@ Proof.
   - intros i Hi. replace (Z.to_nat off) with (N.to_nat (Z.to_N off)) by lia.
     rewrite nth_splice_inside by first [exact Hb | (rewrite Hbs; exact Hi) | (unfold bs; rewrite repeat_length; exact Hi) | lia]. unfold bs. apply nth_error_repeat. exact Hi.
   - intros j Hj. apply nth_splice_outside; [exact Hb|]. lia.
+Qed.
+
+(* f32: what comes back is the f64 rounded to f32 (round to nearest even) and widened again *)
+Lemma f32_roundtrip_lemma s be h off bits s' :
+  b_step s (BWriteF 4 be h off bits) = (s', BOkUnit) -> f64_to_f32 bits < 4294967296 ->
+  b_step s' (BRead 4 2 be h off) = (s', BOkWord (v_float (f32_to_f64 (f64_to_f32 bits)))).
+Proof.
+  cbn [b_step]. destruct (negb (fwriter_known 4 be)) eqn:E; [discriminate|]. change (4 =? 8) with false. cbv iota.
+  intros H Hlt.
+  assert (Hlen : N.of_nat (length (enc 4 be (f64_to_f32 bits))) = 4) by (rewrite enc_length; reflexivity).
+  destruct (read_back _ _ _ _ _ _ H Hlen) as [E1 [E2 [d' [Hg [Hbd Hs]]]]].
+  assert (Hk : reader_known 4 2 be = true) by (destruct be; vm_compute; reflexivity).
+  rewrite Hk. cbn [negb]. change (4 =? 8) with false. change (2 =? 2) with true. cbv iota.
+  rewrite E1, E2, Hg, Hbd, Hs, dec_enc. change (256 ^ N.of_nat 4) with 4294967296. rewrite N.mod_small by exact Hlt. reflexivity.
 Qed.
